@@ -218,7 +218,7 @@ example : (2, 0) ∉ dPattern .se2 ∧ (2, 1) ∉ dPattern .se2 := by decide
 example : adPattern .so3 = [(1, 0), (2, 0), (0, 1), (2, 1), (0, 2), (1, 2)] := by decide
 example : (d2Pattern .se2).length = 10 ∧ (d2Pattern .se3).length = 108 ∧ (dPattern .se3).length = 27 := by decide
 example : dPattern (.bundle [.tn 1, .se2]) = [(0, 0), (1, 1), (2, 1), (1, 2), (2, 2), (1, 3), (2, 3), (3, 3)] := by decide
-example : (adPattern .gal).length = 33 ∧ (adPattern (.bundle [.gal, .tn 4])).length = 33 := by decide
+example : (adPattern .gal).length = 36 ∧ (adPattern (.bundle [.gal, .tn 4])).length = 36 := by decide
 /-- a present entry is overwritten, a missing one is inserted and compression is lost -/
 example : ((⟨2, 2, [((0, 0), (5 : Nat)), ((1, 1), 6)], true⟩ : SpMat Nat).coeffRef 1 1 9).entries = [((0, 0), 5), ((1, 1), 9)]
     ∧ ((⟨2, 2, [((0, 0), (5 : Nat)), ((1, 1), 6)], true⟩ : SpMat Nat).coeffRef 1 0 9).entries
